@@ -560,14 +560,18 @@ class QuicConnection:
             for epoch, packet_type in epoch_packet_types:
                 crypto = self._cryptos[epoch]
                 if crypto.send.is_valid():
-                    builder.start_packet(packet_type, crypto)
-                    self._write_connection_close_frame(
-                        builder=builder,
-                        epoch=epoch,
-                        error_code=self._close_event.error_code,
-                        frame_type=self._close_event.frame_type,
-                        reason_phrase=self._close_event.reason_phrase,
-                    )
+                    try:
+                        builder.start_packet(packet_type, crypto)
+                        self._write_connection_close_frame(
+                            builder=builder,
+                            epoch=epoch,
+                            error_code=self._close_event.error_code,
+                            frame_type=self._close_event.frame_type,
+                            reason_phrase=self._close_event.reason_phrase,
+                        )
+                    except QuicPacketBuilderStop:
+                        # no room for the packet (e.g. oversized retry token)
+                        pass
             self._logger.info(
                 "Connection close sent (code 0x%X, reason %s)",
                 self._close_event.error_code,
